@@ -737,8 +737,12 @@ fn handle_dead_child(sc: &dyn Scenario, tier: Tier, journal: &str, end: ChildEnd
     // every candidate that still "hangs" costs that limit — and the limit becomes part of the replay
     // file: replaying means "this case needs more than that much CPU", where a legitimate case of
     // its size needs milliseconds)
-    let hang_replay_limit = 5u64;
-    let (cpu, budget) = if is_hang { (hang_replay_limit, 24usize) } else { (single_case_cpu_limit_s(), 400usize) };
+    // The replay file records HALF the limit the minimiser used: CPU time of one and the same case
+    // varies by some ten percent from run to run, and a case shrunk until it just exceeds the limit
+    // would sometimes finish in time when replayed under that very limit (it did, once).
+    let hang_min_limit = 6u64;
+    let hang_replay_limit = hang_min_limit / 2;
+    let (cpu, budget) = if is_hang { (hang_min_limit, 24usize) } else { (single_case_cpu_limit_s(), 400usize) };
     let ev = |x: &J| eval_in_subprocess(prop, x, cpu);
     let min = sc.minimise_ext(&case, &sig, &ev, budget);
     let fin = if ev(&min).iter().any(|v| v.sig == sig) { min } else { case.clone() };
